@@ -6,7 +6,7 @@
 (3) composite32.* obligations that live in pixman_image_composite32 but belong to C01/C09: pixbuf special
                   case, IS_OPAQUE promotion, opaque-mask elision.
 """
-from vdriver import Job
+from vdriver import Job, ext_jobs, ext_meta
 
 RANGE = ("composite region: every coordinate of the request (src/mask/dest x,y, width, height), every clip rectangle "
          "coordinate, alpha-map origin and image size lies in [-2^29, 2^29] (the property's 'within int32 arithmetic range')")
@@ -138,12 +138,19 @@ def composite32_jobs(tier):
     return js
 
 
+# extension modules merged into this property's job list (vdriver.ext_jobs / ext_meta)
+EXT = [
+    # the vertical clamps of the trapezoid rasterisers: rows handed to rasterize_edges lie inside the destination (seed C03-5)
+    ("C12", lambda n: n.startswith("trap.")),
+]
+
+
 def jobs(tier):
     js = []
     js += region_jobs(tier)
     js += dispatch_jobs(tier)
     js += composite32_jobs(tier)
-    return js
+    return js + ext_jobs(tier, EXT)
 
 
 META = {
@@ -161,3 +168,4 @@ META = {
         "store frame for 1/4/24 bpp (C10 store_scanline.*), pixman_image_fill_boxes (C19 boxes.*), rasterize_edges clamps (C12), glyph compositing (C17)",
     ],
 }
+META = ext_meta(META, EXT)
